@@ -13,12 +13,13 @@ namespace Stackage
 
 /-- every exported method (found in the source) checks initialisation before anything else can
 run: it tests `IsInit`/`isInit`/`IsZero`/`IsEmpty`/a nil receiver itself, or goes through
-`setState`/`getState` (which do), or simply delegates to an exported method that does. The
+`setState`/`getState` (which do), or simply delegates to an exported method that does, or touches its
+receiver only by calling the receiver's exported methods (each covered by this very statement). The
 three exceptions are by design: `Init` initialises, `Condition.String` starts with `Valid()`
 (which checks), `Stack.Addr` formats the nil pointer. -/
 theorem C17_init_guarded :
     (Gen.facts.filter (fun f => f.exported && (f.recv == "Stack" || f.recv == "Condition"))).all
-      (fun f => f.initGuard || f.usesSetState || f.getState || f.delegates != "" ||
+      (fun f => f.initGuard || f.usesSetState || f.getState || f.delegates != "" || f.viaExported ||
         (f.recv == "Condition" && (f.name == "Init" || f.name == "String")) || (f.recv == "Stack" && f.name == "Addr")) = true := by
   decide
 
